@@ -66,7 +66,10 @@ const cookie = 0x1234
 
 func doOp(v *storage.Volume, o vop, batched bool) string {
 	switch o.Kind {
-	case "W":
+	case "W", "I": // I = a write through the immediate path even in a batched scenario (mixed traffic)
+		if o.Kind == "I" {
+			batched = false
+		}
 		n := &needle.Needle{Id: types.NeedleId(o.Key), Cookie: cookie, Data: []byte(o.Data)}
 		n.Checksum = needle.NewCRC(n.Data)
 		_, _, unchanged, err := v.SchedWriteV(n, batched)
@@ -240,6 +243,9 @@ func interesting(threads [][]vop) bool {
 						mut = true
 					}
 				}
+				if o.Kind == "I" {
+					return true // mixed immediate/batched traffic shares the data file even on different keys
+				}
 			}
 			if tt {
 				touch++
@@ -321,7 +327,9 @@ func run(r *mc.Run) {
 				}
 			}
 		}
+		all = append(all, mixedScenarios()...)
 	} else {
+		all = append(all, mixedScenarios()...)
 		two := scenarios(programs(2), 2)
 		three1 := scenarios(programs(1), 3)
 		for _, batched := range []bool{false, true} {
@@ -373,6 +381,22 @@ func run(r *mc.Run) {
 			explore(r, sc, b, i == shard)
 		}
 	})
+}
+
+// mixedScenarios: a batched (fsync) write applied by the worker goroutine racing an
+// immediate write / delete on the same data file, same key and other key.
+func mixedScenarios() []scenario {
+	var out []scenario
+	t0s := [][]vop{{{"W", 1, "a"}}, {{"W", 1, "a"}, {"R", 1, ""}}}
+	t1s := [][]vop{{{"I", 2, "a"}}, {{"I", 2, "a"}, {"R", 2, ""}}, {{"I", 1, "bb"}}, {{"I", 2, "a"}, {"D", 1, ""}}, {{"D", 1, ""}, {"I", 2, "a"}}}
+	for _, pre := range []bool{false, true} {
+		for _, a := range t0s {
+			for _, b := range t1s {
+				out = append(out, scenario{Batched: true, Pre: pre, Threads: [][]vop{a, b}})
+			}
+		}
+	}
+	return out
 }
 
 func nops(sc scenario) int {
